@@ -136,7 +136,7 @@ def glv(chk, prog):
                                "the listing is asked for (%s, .., %s): this site with max-keys 1 expected" % (show(a[0])[:80], show(a[2])[:40]), w, key="listing-args")
                         l = call(LIST, *a)
                         want = sym.res_match(("await", l), lambda chunks: ok(sym.opt_match(call("core::slice::<impl [T]>::first", chunks), lambda c: fld(c, "date_time"), lambda: NONE)),
-                                             lambda e: err(("conv", e)))
+                                             lambda e: err(e))
                         expect_c(chk, "R-WIRE", GLV, sym.prune(body), sym.prune(want), w, "a directory's value is its first chunk's upload time; a listing failure is propagated")
     chk.ob("R-SIB", GLV, k1 is not None and k1 == k2, "forward map (index + %s) and inverse map (index + %s) agree" % (k1, k2), w, key="maps-agree")
     # rotation bound from VolumeIndex::new's own assertion
